@@ -82,6 +82,7 @@ type Obl struct {
 }
 
 type Enc struct {
+	lenFactSeen map[string]bool
 	w   *World
 	cs  *Contracts
 	hdr []string
@@ -593,6 +594,30 @@ func (e *Enc) mapLinkFacts(dsym, lsym, ks string) []string {
 		fmt.Sprintf("(forall ((m Ref) (k %s)) (! (=> (select (select %s m) k) (>= (select %s m) 1)) :pattern ((select (select %s m) k))))", ks, dsym, lsym, dsym),
 		fmt.Sprintf("(forall ((k %s)) (! (not (select (select %s nil) k)) :pattern ((select (select %s nil) k))))", ks, dsym, dsym),
 	}
+}
+
+// mapLenFact: ground link between the length and the domain of one particular map in one state
+// (emitted where len(m) is read; the global link facts only cover havocked symbols, not the
+// arrays obtained from them by insertions and deletions).
+func (e *Enc) mapLenFact(mt *types.Map, m string, st *St) {
+	if strings.Contains(m, "?") {
+		return
+	}
+	d, _, l := e.mapComps(mt)
+	ks := e.sortOf(mt.Key())
+	dv, lv := e.get(st, d), e.get(st, l)
+	key := "lenfact|" + dv + "|" + lv + "|" + m
+	if e.lenFactSeen == nil {
+		e.lenFactSeen = map[string]bool{}
+	}
+	if e.lenFactSeen[key] {
+		return
+	}
+	e.lenFactSeen[key] = true
+	wit := "map_wit_" + sanitize(ks)
+	e.hdrOnce(wit, fmt.Sprintf("(declare-fun %s ((Array %s Bool)) %s)", wit, ks, ks))
+	e.assume(fmt.Sprintf("(and (>= (select %s %s) 0) (=> (> (select %s %s) 0) (select (select %s %s) (%s (select %s %s)))) (forall ((k %s)) (! (=> (select (select %s %s) k) (>= (select %s %s) 1)) :pattern ((select (select %s %s) k)))))",
+		lv, m, lv, m, dv, m, wit, dv, m, ks, dv, m, lv, m, dv, m))
 }
 
 func (e *Enc) sliceComp(elem types.Type) *Comp {
